@@ -645,7 +645,37 @@ class Escape:
                             if isinstance(n, ast.Call) and dotted(n.func) == "enumerate" and n.args and norm(n.args[0]) == bt:
                                 return True
             g = g.parent
-        return False
+        return self._enumerates_through_partial(i, bt, f)
+
+    def _enumerates_through_partial(self, i, bt, f):
+        """f(bt, i, item) is only ever used as `map(<wrappers>(partial(f, X)), enumerate(X))`:
+        then `i` enumerates `bt` (the closure idiom with the sequence passed explicitly)."""
+        names = [p.name for p in f.params]
+        if f.parent is not None or len(names) < 2 or names[0] != bt or names[1] != i:
+            return False
+        uses = 0
+        for g in self.prog.all_funcs():
+            if g.module is not f.module and f.name not in getattr(g.module, "imports", {}):
+                continue
+            from .paths import Parents
+            P = Parents(g)
+            for n in walk_own(g.body):
+                if not (isinstance(n, ast.Name) and n.id == f.name and isinstance(n.ctx, ast.Load)):
+                    continue
+                r = self.prog.resolve_in(g, n.id)
+                if not (r and r[0] == "func" and r[1] is f):
+                    continue
+                uses += 1
+                chain = [par for par, _, _ in P.chain(n)]
+                part = next((c for c in chain if isinstance(c, ast.Call) and dotted(c.func) in ("partial", "functools.partial")
+                             and c.args and c.args[0] is n and len(c.args) == 2), None)
+                if part is None:
+                    return False
+                mp = next((c for c in chain if isinstance(c, ast.Call) and dotted(c.func) == "map" and len(c.args) == 2
+                           and isinstance(c.args[1], ast.Call) and dotted(c.args[1].func) == "enumerate" and c.args[1].args), None)
+                if mp is None or norm(mp.args[1].args[0]) != norm(part.args[1]):
+                    return False
+        return uses > 0
 
     def _params_key_safe(self, n, f):
         """`<recv>.params["k"]`: k is in the validator class's own keywords
